@@ -381,8 +381,13 @@ func runConc(env *RunEnv, inst bool) {
 				busy := make(chan struct{})
 				releases = append(releases, busy)
 				nact++
+				// The consumer holds the channel from the moment it exists
+				// (asking a subscription for its channel after somebody
+				// closed it is the caller's mistake, like any use after
+				// Close): taken here, not inside the actor, where the
+				// statement scheduler could delay it past a later Close.
+				ch := getSub(s).Channel()
 				as.spawn(fmt.Sprintf("consume#%d.%d", k, i), func() {
-					ch := getSub(s).Channel()
 					n := 0
 					for range ch {
 						n++
